@@ -27,3 +27,17 @@ Definition w_upper : float := 150%float.
 Lemma bounded_segment_refused :
   powerlaw_valid (O:=F_ops) w_exp w_slope w_scale w_lower w_upper = Err ValueError.
 Proof. vm_compute. reflexivity. Qed.
+
+(* an increasing, strictly concave segment (exponent 1/2) that passes the end-point validation
+   and yet gives a remnant heavier than its progenitor in between -- on the float model *)
+Definition c_exp : float := 0x1p-1%float.        (* 0.5 *)
+Definition c_slope : float := 3%float.
+Definition c_scale : float := (-2)%float.
+Definition c_lower : float := 1%float.
+Definition c_upper : float := 4%float.
+Definition c_m : float := 0x1.2p+1%float.        (* 2.25 *)
+Lemma concave_segment_refuted_float :
+  powerlaw_valid (O:=F_ops) c_exp c_slope c_scale c_lower c_upper = Ok tt /\
+  PrimFloat.leb c_lower c_m = true /\ PrimFloat.leb c_m c_upper = true /\
+  PrimFloat.ltb c_m (line (O:=F_ops) c_m c_exp c_slope c_scale) = true.
+Proof. vm_compute. repeat split. Qed.
